@@ -7,6 +7,7 @@ import Nstd.Future.Model
     S <tid>      -> `S <tid> en=<enabled threads>` + the O/E/X lines of that scheduler step (macroStep)
     V            -> [`D <blocked threads>`] `V <DONE|DEADLOCK|RUNNING> steps=<n>`
     F            -> final summary line (same fields as the harness prints)
+    M            -> `M <t,t,...>`: the schedule of MICRO-steps executed so far (for `runSched`)
   The output has the format of the harness trace, so the two streams are compared verbatim.
 -/
 open Nstd.Common
@@ -15,6 +16,7 @@ namespace Nstd.Future
 structure DState where
   st : Option State := none
   steps : Nat := 0
+  micro : List Tid := []      -- the micro-step schedule executed so far (reverse order)
 
 def kvNat (ws : List String) (key : String) (dflt : Nat) : Nat :=
   match ws.find? (fun w => w.startsWith (key ++ "=")) with
@@ -121,6 +123,18 @@ def compact (s : State) : State :=
     execCount := tabArr aE 0, execArgs := tabArr aA none, freeCount := tabArr aD 0, everCalls := tabArr aV none,
     completed := tabArr aK false, pool := pool }
 
+/-- number of micro-steps `runOn` takes (same recursion as `runOn`) -/
+def runOnCount : Nat → State → Tid → Nat → Nat
+  | 0, _, _, n => n
+  | fuel + 1, s, t, n =>
+    match s.threads t with
+    | some { stack := fr :: _, finished := false, .. } =>
+      if fr.isSync then n
+      else match step s t with
+        | some (s', _) => runOnCount fuel s' t (n + 1)
+        | none => n
+    | _ => n
+
 def faultLines (s : State) : List String :=
   match s.fault with
   | some m => [s!"MODEL-FAULT {m}"]
@@ -133,7 +147,7 @@ def stepLine (d : DState) (ws : List String) : DState × String :=
     | none => ({}, "bad-op")
     | some cfg =>
       let (s, o) := runOn 10000 (State.init cfg) 0 []
-      ({ st := some s, steps := 0 }, "\n".intercalate ("ok" :: o))
+      ({ st := some s, steps := 0, micro := List.replicate (runOnCount 10000 (State.init cfg) 0 0) 0 }, "\n".intercalate ("ok" :: o))
   | ["S", ts] =>
     match d.st, ts.toNat? with
     | some s, some t =>
@@ -141,7 +155,11 @@ def stepLine (d : DState) (ws : List String) : DState × String :=
       let hdr := s!"S {t} en=" ++ ",".intercalate (en.map toString)
       match macroStep s t with
       | some (s', o) =>
-        ({ st := some (if (d.steps + 1) % 32 = 0 then compact s' else s'), steps := d.steps + 1 }, "\n".intercalate (hdr :: o ++ faultLines s'))
+        let k := match step s t with
+          | some (s1, _) => 1 + runOnCount 10000 s1 t 0
+          | none => 0
+        ({ st := some (if (d.steps + 1) % 32 = 0 then compact s' else s'), steps := d.steps + 1, micro := List.replicate k t ++ d.micro },
+          "\n".intercalate (hdr :: o ++ faultLines s'))
       | none => (d, hdr ++ s!"\nMODEL-DISABLED {t}")
     | _, _ => (d, "bad-op")
   | ["V"] =>
@@ -153,6 +171,7 @@ def stepLine (d : DState) (ws : List String) : DState × String :=
         (d, "D " ++ " ".intercalate (live.map (fun t => s!"t{t}:{pendName s t}")) ++ s!"\nV DEADLOCK steps={d.steps}")
       else (d, s!"V RUNNING steps={d.steps}")
     | none => (d, "bad-op")
+  | ["M"] => (d, "M " ++ ",".intercalate (d.micro.reverse.map toString))
   | ["F"] =>
     match d.st with
     | some s => (d, finalLine s (totalExecs s))
